@@ -12,6 +12,19 @@ Module A := PropAbs.
 Module AP := PropAbsProofs.
 Module C := PropAbsAct.
 
+Lemma kill_tview w ot w1 : kill_table w ot = (w1, None) ->
+  forall t sl fr al, tview w1 t = Some (sl, fr, al) -> (ot = Some t -> al = false) /\ (forall sl0 fr0, tview w t = Some (sl0, fr0, false) -> al = false).
+Proof.
+  unfold kill_table. intros H t sl fr al Hv. destruct ot as [t0|]; [|inversion H; subst; split; [discriminate|intros sl0 fr0 E; rewrite E in Hv; inversion Hv; reflexivity]].
+  destruct (get_table w t0) as [tb|] eqn:Ht; [|inversion H; subst; split; [intros E; inversion E; subst; unfold tview in Hv; rewrite Ht in Hv; discriminate Hv|intros sl0 fr0 E; rewrite E in Hv; inversion Hv; reflexivity]].
+  destruct (t_emitting tb); [discriminate H|]. inversion H; subst w1; clear H.
+  rewrite tview_put_table in Hv. pose proof (get_table_lt _ _ _ Ht) as Hlt. apply Nat.ltb_lt in Hlt. rewrite Hlt in Hv.
+  destruct (Nat.eqb_spec t0 t) as [<-|Hne].
+  - inversion Hv; subst. split; reflexivity.
+  - split; [intros E; inversion E; contradiction|intros sl0 fr0 E; rewrite E in Hv; inversion Hv; reflexivity].
+Qed.
+
+
 Section GrowAct2.
   Variable fn : nat -> list Z -> option Z.
   Variable rtl : bool.
@@ -513,12 +526,63 @@ Section GrowAct2.
     destruct Hor as [Ho|[Ho Hu]]; [left; apply OW; auto|right; split; [apply OW; auto|apply UB; exact Hu]].
   Qed.
 
+  (* after ~Property the tables of the public change signals of the dead property are dead *)
+  Lemma del_dead fuel w p pr w' :
+    lookup (w_props w) p = Some pr -> step1 fn rtl fuel w (PDel p) = (w', None) ->
+    forall t, (pr_changed pr = Some t \/ pr_about pr = Some t) -> forall sl fr al, tview w' t = Some (sl, fr, al) -> al = false.
+  Proof.
+    intros Hp H t Ht sl fr al Hv. cbn [step1] in H. unfold destroy_prop in H. rewrite Hp in H.
+    destruct (emit fn rtl (set_helper fn rtl fuel) w (pr_destroyed pr) p KDestroyed []) as [w1 [e|]]; [discriminate H|].
+    destruct (match pr_updater pr with Some b => destroy_binding w1 b | None => ok w1 end) as [w2 [e|]]; [discriminate H|].
+    destruct (kill_table w2 (pr_destroyed pr)) as [w3 [e|]] eqn:K3; [discriminate H|].
+    destruct (kill_table w3 (pr_moved pr)) as [w4 [e|]] eqn:K4; [discriminate H|].
+    destruct (kill_table w4 (pr_changed pr)) as [w5 [e|]] eqn:K5; [discriminate H|].
+    destruct (kill_table w5 (pr_about pr)) as [w6 [e|]] eqn:K6; [discriminate H|]. inversion H; subst w'; clear H.
+    change (tview w6 t = Some (sl, fr, al)) in Hv.
+    destruct (kill_tview w5 _ w6 K6 t sl fr al Hv) as [A6 B6].
+    destruct Ht as [Hc|Ha]; [|exact (A6 Ha)].
+    (* the valueChanged table was killed one step earlier and stays dead *)
+    destruct (tview w5 t) as [[[sl5 fr5] al5]|] eqn:T5.
+    - destruct (kill_tview w4 _ w5 K5 t sl5 fr5 al5 T5) as [A5 _]. apply (B6 sl5 fr5). rewrite (A5 Hc). reflexivity.
+    - (* no such table before the last step: the last step does not create one *)
+      exfalso. unfold kill_table in K6. destruct (pr_about pr) as [ta|]; [|inversion K6; subst w6; congruence].
+      destruct (get_table w5 ta) as [tb|] eqn:Hg; [|inversion K6; subst w6; congruence].
+      destruct (t_emitting tb); [discriminate K6|]. inversion K6; subst w6. rewrite tview_put_table in Hv.
+      destruct (Nat.eqb_spec ta t) as [<-|Hne]; [unfold tview in T5; rewrite Hg in T5; discriminate T5|congruence].
+  Qed.
+
+  (* destruction of a property that no live binding reads, while writing observers exist: its observers die with its tables *)
+  Lemma grow_del_b fuel w p w' :
+    SCB w -> COH w -> (forall b lf, has_leaf w b lf -> lf_tg lf <> Some p) ->
+    step1 fn rtl fuel w (PDel p) = (w', None) -> SCB w' /\ COH w'.
+  Proof.
+    intros (Hinv & Hna & Hsi) HC Hnr H.
+    pose proof (destroy_prop_pinv fn rtl fuel w p w' None Hinv H I) as Hinv'.
+    destruct (PropGrowMore.grow_del_core fn rtl fuel w p w' Hinv Hsi HC Hnr H) as (Hsi' & HC' & Sw & Pw).
+    split; [|exact HC']. split; [exact Hinv'|split; [|exact Hsi']].
+    assert (Hp : exists pr, lookup (w_props w) p = Some pr).
+    { cbn [step1] in H. unfold destroy_prop in H. destruct (lookup (w_props w) p) as [pr|]; [exists pr; reflexivity|discriminate H]. }
+    destruct Hp as (pr & Hp).
+    assert (PV : forall p0 vv, p0 <> p -> pview w p0 = Some vv -> pview w' p0 = Some vv).
+    { intros p0 vv Hne Ev. unfold pview in *. rewrite Pw, lookup_remove_other by exact Hne. exact Ev. }
+    intros t pos ser label a Hsl. pose proof (Sw _ _ _ _ Hsl) as Hs0. destruct (Hna t pos ser label a Hs0) as (tgt & p0 & Ea & Hor).
+    assert (Hne : p0 <> p).
+    { intros ->. destruct Hsl as (sl & fr & al & Et & En).
+      assert (Hal : al = false).
+      { refine (del_dead fuel w p pr w' Hp H t _ sl fr al Et).
+        destruct Hor as [(vv & Ev & Es)|[(vv & Ev & Es) _]]; unfold pview in Ev; rewrite Hp in Ev; inversion Ev; subst vv; cbn in Es; auto. }
+      subst al. pose proof (pi_dead _ _ _ _ _ _ _ Hinv' _ _ _ _ _ Et En) as E. discriminate E. }
+    exists tgt, p0. split; [exact Ea|].
+    destruct Hor as [(vv & Ev & Es)|[(vv & Ev & Es) (u & Pu & Uu)]]; [left; exists vv; split; [exact (PV _ _ Hne Ev)|exact Es]|right; split; [exists vv; split; [exact (PV _ _ Hne Ev)|exact Es]|exists u; split; [exact (PV _ _ Hne Pu)|exact Uu]]].
+  Qed.
+
   Definition grow_act2_op (w : world) (o : op) : Prop :=
     match o with
     | PNew _ _ => True
     | PBind p _ MImmediate => lookup (w_props w) p = None \/ (unbound_b w p = true /\ nab_b w p = true) \/ bound_b w p = true
     | PReset _ => True
     | PMoveCtor _ _ => True
+    | PDel p => PropGrowMore.no_reader_b w p = true
     | _ => act2_op w o
     end.
 
@@ -526,6 +590,7 @@ Section GrowAct2.
   Proof.
     intros HSC HC HNE Ho H. destruct o; cbn [grow_act2_op] in Ho; try (exact (act2_step fuel w _ w' HSC HC Ho H)).
     - (* PNew *) cbn [step1] in H. destruct (lookup (w_props w) p) eqn:Hp; [discriminate H|]. inversion H; subst w'. apply grow_new_b; assumption.
+    - (* PDel *) apply (grow_del_b fuel w p w' HSC HC (PropGrowMore.no_reader_sound w p Ho) H).
     - (* PBind *) destruct m; [|destruct Ho]. destruct Ho as [Ho|[[Hub Hnb]|Hbd]]; [apply (grow_bind_b fuel w p e w'); assumption| |].
       + unfold unbound_b in Hub. destruct (lookup (w_props w) p) as [pr|] eqn:Hp; [|discriminate Hub]. destruct (pr_updater pr) eqn:Hu; [discriminate Hub|].
         apply (grow_bind_unbound_b fuel w p pr e w' HSC HC Hp Hu (nab_b_sound w p Hnb) H).
